@@ -30,6 +30,9 @@ def fileOf (codec : Codec) (crc : Checksum) (nm : B) (es : List (Hv.Migrate.Entr
 /-- the V2 engine as the migrator sees it: written by the C01 writer model, read by the C01 `loadIndex` -/
 def storV2 (codec : Codec) (crc : Checksum) : Hv.Migrate.V2 B B where
   write nm es := fileOf codec crc nm es
+  append f es := (openExisting f).map fun s => (runOps goodCfg codec crc 0 { file := f, sess := some s } (opsOf es)).file
+  accepts e := accepts goodCfg (entOf e)
+  acceptsName nm := !(65535 < nm.length)
   loadMap f k := match loadIndex goodCfg codec.toDecoder crc f with
     | .ok (idx, _) => idx.find k
     | .error _ => none
@@ -152,7 +155,7 @@ theorem loadIndex_fileOf (codec : Codec) (crc : Checksum) (nm : B) (es : List (H
 
 /-- **The assumption of C23 holds for the C01 storage model.** -/
 theorem storV2_lawful (codec : Codec) (crc : Checksum) : (storV2 codec crc).Lawful okE okN := by
-  refine ⟨?_, ?_, ?_⟩
+  refine ⟨?_, ?_, ?_, fun e he => accepts_of_ok e he, ?_⟩
   · intro nm es hn he hnd k
     simp only [storV2, loadIndex_fileOf codec crc nm es hn he]
     rw [find_specOf, value_lastWrite k es hnd]
@@ -161,5 +164,19 @@ theorem storV2_lawful (codec : Codec) (crc : Checksum) : (storV2 codec crc).Lawf
   · intro nm es k hn he hnd
     simp only [storV2, loadIndex_fileOf codec crc nm es hn he]
     rw [find_specOf, value_lastWrite k es hnd]
+  · intro nm hn
+    have := hn.1
+    simp only [storV2, Bool.not_eq_true', decide_eq_false_iff_not, Nat.reducePow] at this ⊢
+    omega
+
+/-- the record the writer refuses: a key of 65536 bytes (and the empty key) -/
+theorem long_key_refused (codec : Codec) (crc : Checksum) (v : B) :
+    (storV2 codec crc).accepts (List.replicate 65536 0, v) = false := by
+  have h : (List.replicate 65536 (0 : UInt8)).length = 65536 := List.length_replicate ..
+  simp only [storV2, accepts, goodCfg, entOf, h]
+  decide
+
+theorem empty_key_refused (codec : Codec) (crc : Checksum) (v : B) : (storV2 codec crc).accepts ([], v) = false := by
+  simp [storV2, accepts, goodCfg, entOf]
 
 end Hv.MigrateV2
